@@ -47,7 +47,10 @@ def mir_recovery(cfg):
 
 
 def obligations():
-    return _own() + (common.shared('C12', ['O12.1-commit'], 'O8', 'fork switch: rollback of the index precedes the new last state (a crash in between leaves the old tip with a rolled-back index, which re-syncs)') +
+    import C03
+    o7 = C03.filter_block_quick('O8.7-index-one-batch')
+    o7.desc = '[block indexing is ONE atomic batch incl. its header rows: a crash cannot leave cells / transactions without the header mapping that get_transaction and the cell provider resolve them through] ' + o7.desc
+    return _own() + [o7] + (common.shared('C12', ['O12.1-commit'], 'O8', 'fork switch: rollback of the index precedes the new last state (a crash in between leaves the old tip with a rolled-back index, which re-syncs)') +
                      common.shared('C06', ['O6.1-filters', 'O6.1-filters-t'], 'O8', 'filter batch: the filtered height is persisted after the matched-block record / the script numbers of the same batch (a crash in between repeats the batch instead of losing it)'))
 
 
